@@ -817,7 +817,7 @@ fn gen_pats(r: &mut Rng, with_la: bool, n: usize, numbering: usize) -> Vec<PatSp
     for _ in 0..n {
         // three quarters from the pool, one quarter structured random regexes (every operator, nested)
         let p = if r.below(4) == 0 { let d = 1 + r.below(2); gen_regex(r, d) } else if r.below(24) == 0 { String::new() /* the empty pattern: valid, never yields a token, keeps its position */ } else { r.pick(PATS).to_string() };
-        let la = if with_la && r.below(2) == 0 { Some((r.below(3) != 0, r.pick(LAS).to_string())) } else { None };
+        let la = if with_la && r.below(2) == 0 { Some((r.below(3) != 0, if r.below(4) == 0 { gen_regex(r, 1) } else { r.pick(LAS).to_string() })) } else { None };
         out.push(PatSpec { p, tt: tts.remove(0), la });
     }
     // the same pattern text listed twice (the later copy can never win a tie, but it keeps its own position / token type)
